@@ -485,4 +485,6 @@ def run(F, rep, tier="quick", extra=None, only=None):
     # space hands them negative and > 1 values, so the pair has to be inverse on the whole real line: both are compared, piece by piece, with
     # the published pair (which is mutually inverse with the linear segment extended through the origin)
     consts.check_transfer_functions(F, rep, S)
+    from . import aliasrule
+    aliasrule.check(F, rep, "C01", 39)
     return {"level": "other"}
